@@ -278,6 +278,22 @@ static void SetError(tErrorNum Code) {
     ErrFlag = True;
 }
 
+/* An operand has room for as_array_size(AdrVals[0]) extension words, and
+   every level of a chained address needs at least one of them. Deeper
+   nesting cannot be encoded, so there is no point in parsing it. */
+
+#define ADRVALS_MAX ((int)(sizeof(AdrVals[0]) / sizeof(AdrVals[0][0])))
+
+static int ChainDepth = 0;
+
+static Boolean ChkAdrValsRoom(int Index, int Cnt) {
+    if ((AdrCnt1[Index] >> 1) + Cnt > ADRVALS_MAX) {
+        WrError(ErrNum_InvAddrMode);
+        return False;
+    }
+    return True;
+}
+
 static PChainRec DecodeChain(tStrComp* pArg) {
     PChainRec      Rec;
     int            z;
@@ -322,7 +338,13 @@ static PChainRec DecodeChain(tStrComp* pArg) {
                     StrCompIncRefLeft(&Arg, 1);
                     StrCompShorten(&Arg, 1);
                 }
-                Rec->Next = DecodeChain(&Arg);
+                if (ChainDepth >= ADRVALS_MAX) {
+                    SetError(ErrNum_InvAddrMode);
+                } else {
+                    ChainDepth++;
+                    Rec->Next = DecodeChain(&Arg);
+                    ChainDepth--;
+                }
             }
         }
 
@@ -684,6 +706,10 @@ static Boolean DecodeAdr(tStrComp const* pArg, int Index, Word Mask) {
                 /* noch etwas abzulegen ? */
 
                 if ((RunChain->RegCnt != 0) || (RunChain->HasDisp)) {
+                    if (!ChkAdrValsRoom(Index, 1)) {
+                        Error = True;
+                        break;
+                    }
                     LastChain = AdrCnt1[Index] >> 1;
 
                     /* Register ablegen */
@@ -768,7 +794,9 @@ static Boolean DecodeAdr(tStrComp const* pArg, int Index, Word Mask) {
                             /* Fall 3: 16 Bit */
 
                         case DispSize16:
-                            if (ChkRange(RunChain->DispAcc, -32768, 32767)) {
+                            if (!ChkAdrValsRoom(Index, 1)) {
+                                Error = True;
+                            } else if (ChkRange(RunChain->DispAcc, -32768, 32767)) {
                                 AdrVals[Index][LastChain] += 0x0011;
                                 AdrVals[Index][LastChain + 1]
                                         = RunChain->DispAcc & 0xffff;
@@ -782,6 +810,10 @@ static Boolean DecodeAdr(tStrComp const* pArg, int Index, Word Mask) {
                             /* Fall 4: 32 Bit */
 
                         case DispSize32:
+                            if (!ChkAdrValsRoom(Index, 2)) {
+                                Error = True;
+                                break;
+                            }
                             AdrVals[Index][LastChain] += 0x0012;
                             AdrVals[Index][LastChain + 1] = RunChain->DispAcc >> 16;
                             AdrVals[Index][LastChain + 2] = RunChain->DispAcc & 0xffff;
@@ -800,6 +832,10 @@ static Boolean DecodeAdr(tStrComp const* pArg, int Index, Word Mask) {
                    auf, falls alles schon im Basisadressierungsbyte verschwunden */
 
                 else if (RunChain != RootChain) {
+                    if (!ChkAdrValsRoom(Index, 1)) {
+                        Error = True;
+                        break;
+                    }
                     LastChain                 = AdrCnt1[Index] >> 1;
                     AdrVals[Index][LastChain] = 0x0200;
                     AdrCnt1[Index] += 2;
